@@ -385,7 +385,7 @@ func TestVerifC18(t *testing.T) {
 		vs.E1(t, "burst/ttl=60s+list-in-flight", b, vs.Options{}, func() vs.Verdict { return c18Run(c18Opts{ttl: 60000, inflightList: true}) }),
 		vs.E1(t, "burst/cache-race/ttl=60s", env.Pick(1, 2), vs.Options{}, func() vs.Verdict { return c18Run(c18Opts{ttl: 60000, inflightList: true, cacheRace: true}) }),
 		vs.E1(t, "burst/small/legacy-only", env.Pick(3, 4), vs.Options{}, func() vs.Verdict { return c18Run(c18Opts{small: true}) }),
-		vs.E1(t, "burst/slow-peer-during-fan-out", env.Pick(1, 2), vs.Options{}, func() vs.Verdict { return c18Run(c18Opts{slowPeer: true}) }),
+		vs.E1(t, "burst/slow-peer-during-fan-out", env.Pick(1, 2), vs.Options{NoFreeRun: "the stalled write holds the connection's write mutex while the harness waits for virtual time"}, func() vs.Verdict { return c18Run(c18Opts{slowPeer: true}) }),
 		vs.E1(t, "burst/faulty-peer-during-fan-out", env.Pick(1, 2), vs.Options{}, func() vs.Verdict { return c18Run(c18Opts{faultyPeer: true}) }),
 		vs.E1(t, "burst/capability-disabled", env.Pick(0, 1), vs.Options{}, func() vs.Verdict { return c18Run(c18Opts{capabilityOff: true}) }),
 	}
